@@ -132,11 +132,16 @@ def ob_ts_cascade(h):
 def ob_match(h):
     nh = h.choice("hot_utilities", [1, 2])
     nc = h.choice("cold_utilities", [1, 2])
-    same = h.choice("a_generation_level_matches_a_use_level", [True, False])
+    # how many generation (cold) levels lie within 1 K of use level 0
+    same = h.choice("generation_levels_matching_use_level_0", [0, 1, 2])
+    if same > nc:
+        return
     hu = [_util(f"HU{j}", *HOT_LEVELS[j], h.real(f"hu{j}", lo=0)) for j in range(nh)]
     levels = list(COLD_LEVELS)
-    if same:
-        levels[0] = (HOT_LEVELS[0][1], HOT_LEVELS[0][0])      # cold utility raised at the level hot utility 0 is used at
+    if same >= 1:
+        levels[0] = (HOT_LEVELS[0][1], HOT_LEVELS[0][0])              # raised exactly at the level hot utility 0 is used at
+    if same == 2:
+        levels[1] = (HOT_LEVELS[0][1] - 0.5, HOT_LEVELS[0][0] - 0.5)  # a second generation level half a kelvin below
     cu = [_util(f"CU{j}", *levels[j], h.real(f"cu{j}", lo=0)) for j in range(nc)]
     before_h, before_c = [s.heat_flow for s in hu], [s.heat_flow for s in cu]
     ii._match_utility_gen_and_use_at_same_level(_coll(hu), _coll(cu))
@@ -145,7 +150,7 @@ def ob_match(h):
     for a, b in zip(after_h + after_c, before_h + before_c):
         h.check("duties_stay_non_negative", a >= 0)
         h.check("duties_never_increase", a <= b)
-    if not same:
+    if same == 0:
         h.check("unmatched_levels_untouched", And(*[h.eq(a, b) for a, b in zip(after_h + after_c, before_h + before_c)]))
 
 
@@ -180,7 +185,7 @@ def ob_ts_readout(h):
     n = 3
     recorded = {}
     hu = _coll([_util("HU0", *HOT_LEVELS[0], h.real("tz_hu0", lo=0))])
-    cu = _coll([_util("CU0", *COLD_LEVELS[0], h.real("tz_cu0", lo=0))])
+    cu = _coll([_util("CU0", HOT_LEVELS[0][1], HOT_LEVELS[0][0], h.real("tz_cu0", lo=0))])      # generated at the level HU0 is used at
     tz = SimpleNamespace(hot_utilities=hu, cold_utilities=cu, heat_recovery_target=h.real("tz_Qr"), hot_utility_target=h.real("tz_Qh"),
                          cold_utility_target=h.real("tz_Qc"), heat_recovery_limit=h.real("tz_limit"))
     cfg = Configuration()
@@ -202,17 +207,20 @@ def ob_ts_readout(h):
              PT.H_HOT_UT.value: npx.array(h.reals("UH" + tag, n)) if h.symbolic else __import__("numpy").array(h.reals("UH" + tag, n)),
              PT.H_COLD_UT.value: npx.array(h.reals("UC" + tag, n)) if h.symbolic else __import__("numpy").array(h.reals("UC" + tag, n))}
         ut_cols[tag] = d
+        ut_cols["duties_" + tag] = ([u.heat_flow for u in hot], [u.heat_flow for u in cold])
         return d
     if not h.symbolic:
         raise __import__("pvc.engine", fromlist=["ReplayMismatch"]).ReplayMismatch("modular obligation: callees are contracts, no native replay")
     h.stub(ii, "_sum_subzone_targets", lambda z: z)
     h.stub(ii, "get_process_heat_cascade", fake_cascade)
     h.stub(ii, "_get_site_utility_heat_cascade", fake_ut_cascade)
-    h.stub(ii, "_save_graph_data", lambda a, b: {})
     ii.compute_indirect_integration_targets(zone)
     res = recorded[TargetType.TS.value]
     tv = res["target_values"]
     U = ut_cols["s"][PT.H_NET_UT.value]
+    for tag in ("s", "r"):
+        dh, dc = ut_cols["duties_" + tag]
+        h.check("site_utility_cascade_sees_the_summed_zone_duties", And(h.eq(dh[0], h.real("tz_hu0")), h.eq(dc[0], h.real("tz_cu0"))))
     h.check("TS_Qh_is_top_of_shifted_utility_gcc", h.eq(tv["hot_utility_target"], U[0]))
     h.check("TS_Qc_is_bottom_of_shifted_utility_gcc", h.eq(tv["cold_utility_target"], U[n - 1]))
     h.check("TS_Qr_is_TZ_recovery_plus_hot_utility_saved", h.eq(tv["heat_recovery_target"], tz.heat_recovery_target + (tz.hot_utility_target - U[0])))
@@ -245,7 +253,7 @@ def obligations():
         Obligation("C02.set_targets", ob_set_targets, kind="proof", functions=[ii._set_sites_targets]),
         Obligation("C02.ts.readout", ob_ts_readout, kind="proof", functions=[ii.compute_indirect_integration_targets, ii._get_site_process_heat_load_profiles],
                    stubs=("get_process_heat_cascade (any table)", "_get_site_utility_heat_cascade (any columns; contract C02.ts.cascade.b)", "_sum_subzone_targets (C02.tz.sum.b)",
-                          "_save_graph_data", "Zone.import_hot_and_cold_streams_from_sub_zones"),
+                          "Zone.import_hot_and_cold_streams_from_sub_zones"),
                    doc="modular: the TS record takes the two end values of the shifted utility GCC; Qr by difference; TS record balanced from the callee contracts"),
         Obligation("C02.serialise.b", ob_serialise, kind="bounded", bound="0..2 hot and 0..1 cold utilities on the record", functions=[EnergyTarget.serialize_json]),
     ]
